@@ -220,34 +220,37 @@ def _target_weight_pairing(check: Check, ci: ClassInfo, ev: FuncInfo, ff: FuncFl
           ok_tgt = True
     check.ob('R-PAIR.target-weight', ev, txt(c), ok_args and ok_tgt,
              'weights come from get_target_weight(example[self.target_key], self.masked_target_values)', node=c)
-  if len(tw_names) != 1:
+  if len(tw_names) > 1 or len(tw_calls) != 1:
     return
-  tw = next(iter(tw_names))
+  # the weights are either the one variable bound to the call or (when used once) the call itself
+  tw_label = next(iter(tw_names)) if tw_names else 'get_target_weight(...)'
+  def tw(n):
+    return (isinstance(n, ast.Name) and n.id in tw_names) or n is tw_calls[0]
   for _, rv in ff.returns():
     for x in ff.expand(rv):
       if not (isinstance(x, ast.Call) and isinstance(x.func, ast.Attribute) and x.func.attr == 'new'):
         continue
       cls = txt(x.func.value)
-      uses = [[n for n in ff.deep_walk(a) if isinstance(n, ast.Name) and n.id == tw] for a in x.args]
+      uses = [[n for n in ff.deep_walk(a) if tw(n)] for a in x.args]
       if cls == 'MeanStat' and len(x.args) == 2:
         den_ok = _reduces_to(ff, x.args[1], tw)
         ok = den_ok and (bool(uses[0]) or ci.name in ('SequenceLength',))
         # numerator must *multiply* by the weight (or be a reduction of it)
         num_ok = _weighted(ff, x.args[0], tw) or ci.name in ('SequenceLength', 'SequenceTruncationRate')
         check.ob('R-PAIR.num-den', ev, txt(x)[:90], ok and num_ok,
-                 f'numerator and denominator of the mean must both be built from the same `{tw}` '
+                 f'numerator and denominator of the mean must both be built from the same `{tw_label}` '
                  f'(numerator weighted: {num_ok}; denominator is a reduction of it: {den_ok})', node=x)
       elif cls == 'SumStat' and len(x.args) == 1:
-        check.ob('R-PAIR.num-den', ev, txt(x)[:90], bool(uses[0]), f'the count must be built from `{tw}`', node=x)
+        check.ob('R-PAIR.num-den', ev, txt(x)[:90], bool(uses[0]), f'the count must be built from `{tw_label}`', node=x)
 
 
-def _reduces_to(ff: FuncFlow, e: ast.AST, tw: str) -> bool:
+def _reduces_to(ff: FuncFlow, e: ast.AST, tw) -> bool:
   """e is tw, or sum/any (nested) of tw: a count derived from the weights only."""
-  start = [e] if not (isinstance(e, ast.Name) and e.id != tw) else ff.expand(e)
+  start = [e] if not (isinstance(e, ast.Name) and not tw(e)) else ff.expand(e)
   for x in start:
     cur = x
     for _ in range(4):
-      if isinstance(cur, ast.Name):
+      if isinstance(cur, ast.Name) or tw(cur):
         break
       if isinstance(cur, ast.Call) and ff.ext(cur.func) in ('jax.numpy.sum', 'jax.numpy.any', 'jax.numpy.count_nonzero') and cur.args:
         cur = cur.args[0]
@@ -256,15 +259,15 @@ def _reduces_to(ff: FuncFlow, e: ast.AST, tw: str) -> bool:
         cur = cur.func.value
         continue
       return False
-    if not (isinstance(cur, ast.Name) and cur.id == tw):
+    if not tw(cur):
       return False
   return True
 
 
-def _weighted(ff: FuncFlow, e: ast.AST, tw: str) -> bool:
+def _weighted(ff: FuncFlow, e: ast.AST, tw) -> bool:
   for n in ff.deep_walk(e):
     if isinstance(n, ast.BinOp) and isinstance(n.op, ast.Mult):
-      if any(isinstance(s, ast.Name) and s.id == tw for s in (n.left, n.right)):
+      if any(tw(s) for s in (n.left, n.right)):
         return True
   return False
 
